@@ -9,7 +9,7 @@ from . import c07
 
 PROPERTY = "C18"
 RULE = ("E1 x E3: LP portfolios (contracts, storages, transports with efficiency, multi-commodity, order book, windows so that nodes lack "
-        "dispatch at some steps, coarse / periodic assets, structured wrappers, mono and split mode) with <= K deviations; for each "
+        "dispatch at some steps, coarse / periodic assets, structured wrappers, mono and split mode, hourly steps across the autumn clock change, a penalty contract with a cost coefficient of 1e6, split runs of a structured asset whose internal part is active before any portfolio node) with <= K deviations; for each "
         "portfolio EVERY (node, step) with a reported price and BOTH signs of a small injection; distinct = canonical scenario; "
         "non-trivial = optimal with prices reported and at least one perturbation changing the value")
 ASSUMPTIONS = ["an injection d at (node, step) is realised by an extra must-run contract delivering d in that step only; the re-optimised value "
@@ -20,11 +20,41 @@ EXPLANATION = "bounded exhaustive scenario enumeration x all (node, step, sign) 
 MIN_NONTRIVIAL_FRACTION = 0.3
 MAX_S = {"quick": 900, "thorough": 7200}
 
-FEATS = dict(grids=["4x6h", "3xd_spring", "12h_partial", "4x6h_d"], price_pairs=S.PRICE_PAIRS[:1], bases=["one", "two"],
-             extras=["mc", "ob", "dem"], modes=["mono", "split:12h"],
+FEATS = dict(grids=["4x6h", "3xd_spring", "12h_partial", "4x6h_d", "7xh_autumn"], price_pairs=S.PRICE_PAIRS[:1], bases=["one", "two"],
+             extras=["mc", "ob", "dem", "slack"], modes=["mono", "split:12h"],
              caps=1, extra_costs=1, window=1, takes=1, freq=["12h"], periodicity=[("12h", None)],
              sto_eff=1, sto_inflow=1, sto_levels=1, sto_two_nodes=1, tr_dir=1, tr_eff=1, tr_costs=1, mc_factors=1, wacc=1)
 D = 0.05
+
+
+def gen_struct_split(ch):
+    """split optimisation of a structured asset whose internal part is active before anything touches a node of the portfolio"""
+    gj = dict(S.GRIDS["8x6h"])
+    g = Grid.from_json(gj)
+    T = g.T
+    prices = S.make_prices(T, S.PRICE_PAIRS[0])
+    k = ch.free("outer_start", [2, 4, 0])      # grid point at which the link to the outside and all outer assets begin
+    late = g.instant_iso(("gp", k)) if k else None
+    inner = [dict(type="Storage", name="isto", nodes=["ni"], size=6.0, cap_in=1.0, cap_out=1.0, start_level=0.0, end_level=0.0),
+             dict(type="SimpleContract", name="icon", nodes=["ni"], price="ec", min_cap=0.0, max_cap=1.0),
+             dict(type="Transport", name="itr", nodes=["ni", "n1"], min_cap=-2.0, max_cap=2.0, efficiency=ch.pick("itr.eff", [1.0, 0.9]))]
+    if late:
+        inner[2]["start"] = late
+    if ch.pick("second_internal_node", [False, True]):
+        inner.append(dict(type="Storage", name="isto2", nodes=["nj"], size=2.0, cap_in=0.5, cap_out=0.5, start_level=0.0, end_level=0.0))
+        inner.append(dict(type="Transport", name="itr2", nodes=["ni", "nj"], min_cap=-1.0, max_cap=1.0))
+    assets = [dict(type="SimpleContract", name="mkt", nodes=["n1"], price="p", min_cap=-5.0, max_cap=5.0),
+              dict(type="StructuredAsset", name="st", nodes=["n1"], portfolio=inner)]
+    if ch.pick("second_node", [False, True]):
+        assets += [dict(type="SimpleContract", name="mk2", nodes=["n2"], price="q", min_cap=-4.0, max_cap=4.0),
+                   dict(type="Transport", name="tr", nodes=["n1", "n2"], min_cap=0.0, max_cap=3.0, efficiency=0.8)]
+    if late:
+        for a in assets:
+            if a["type"] != "StructuredAsset":
+                a["start"] = late
+    if ch.free("st.pos", ["last", "first"]) == "first":
+        assets.insert(0, assets.pop([a["name"] for a in assets].index("st")))
+    return S.finish(gj, assets, prices, mode=ch.free("mode", ["split:12h", "split:d", "mono"]))
 
 
 def build_cases(tier):
@@ -32,7 +62,8 @@ def build_cases(tier):
     split = dict(FEATS, grids=["8x6h"], modes=["split:12h", "split:d"])
     fams = [family("main", lambda ch: S.gen_portfolio(ch, FEATS), K),
             family("split", lambda ch: S.gen_portfolio(ch, split), K),
-            family("wrapped", c07.gen_wrapped, K)]
+            family("wrapped", c07.gen_wrapped, K),
+            family("struct_split", gen_struct_split, 2)]
     if tier == "quick":
         small = dict(grids=["4x6h"], price_pairs=S.PRICE_PAIRS[:1], bases=["two"], extras=["mc"], modes=["mono"], window=1, sto_eff=1,
                      sto_two_nodes=1, tr_eff=1, tr_dir=1, mc_factors=1, extra_costs=1)
